@@ -59,12 +59,17 @@ VisMismatch(idx, vis) ==
             (idx[v.p].attr.mode # v.mode \/ idx[v.p].attr.own # v.own
              \/ (idx[v.p].attr.mt # 0 /\ idx[v.p].attr.mt # v.mt)) THEN {"visattr"} ELSE {})
 
+\* C13 on the logged projection itself: the entries reached by listing from the root are the live rows
+TreeMismatch(rows, vis) ==
+  IF {r.p : r \in {x \in RangeOf(rows) : ~x.deleted}} # {v.p : v \in RangeOf(vis)} THEN {"tree"} ELSE {}
+
 Mismatch(e, res, tp, te, idx) ==
      (IF (res = "ok") # e.ok THEN {"res"} ELSE {})
   \cup (IF Len(tp) # e.nrec THEN {"nrec"} ELSE {})
   \cup (IF te # e.blocks THEN {"blocks"} ELSE {})
   \cup RowMismatch(idx, e.rows)
   \cup VisMismatch(idx, e.vis)
+  \cup TreeMismatch(e.rows, e.vis)
 
 CallOf(c) == C(c.op, c.p, c.q, c.c, c.k)
 
